@@ -10,7 +10,7 @@ Record ccase := { cc_pts : list (Q*Q); cc_ops : list cop; cc_exp : list cres }.
 
 Definition same_err (a b:err) := match a,b with AssertFail _, AssertFail _ => true | ZeroDiv,ZeroDiv => true
   | ValueErr,ValueErr => true | IndexErr,IndexErr => true | Overflow,Overflow => true
-  | RuntimeErr,RuntimeErr => true | KeyErr,KeyErr => true | TypeErr,TypeErr => true | _,_ => false end.
+  | RuntimeErr,RuntimeErr => true | KeyErr,KeyErr => true | TypeErr,TypeErr => true | GenericErr,GenericErr => true | _,_ => false end.
 Definition same_rq (a b:res Q) := match a,b with Ok x, Ok y => Qeq_bool x y | Err e, Err e' => same_err e e' | _,_ => false end.
 Fixpoint all2 {A} (f:A->A->bool) (a b:list A) := match a,b with [],[] => true | x::r,y::s => f x y && all2 f r s | _,_ => false end.
 Definition same_pt (a b:Q*Q) := Qeq_bool (fst a) (fst b) && Qeq_bool (snd a) (snd b).
